@@ -21,7 +21,8 @@ Theorem C02_insert_db_exact : forall b rs vs, Inv b rs -> wf_vs vs ->
                (mem x (needed b) \/ exists v, In v vs /\ gapx b x v) /\ ~ mem x vs) /\
     max0 (maxv b) <= max0 (maxv b') /\
     (forall v, In v vs -> snd v <= max0 (maxv b')) /\
-    (forall v p, aget v (partials b') = Some p -> aget v (partials b) = Some p).
+    (forall v p, aget v (partials b') = Some p -> aget v (partials b) = Some p) /\
+    (forall z, max0 (maxv b) <= z -> (forall v, In v vs -> snd v <= z) -> max0 (maxv b') <= z).
 Proof. exact insert_db_ok. Qed.
 Print Assumptions C02_insert_db_exact.
 
